@@ -33,10 +33,10 @@ PROPS = {
     'C01': P('C01', [('codepair', 10000, 80000), ('lines', 600, 4800), ('inlineops', 7500, 60000), ('link', 10000, 80000), ('entity', 10000, 80000), ('url', 10000, 80000), ('smap', 300, 2400), ('block', 6000, 48000), ('inline', 5000, 40000), ('pipeline', 1500, 12000)], ('C01', 30000, 240000),
              "oracle: parse->render->xrender under catch_unwind on grammar/spec/mutated/adversarial/malformed documents x configuration sample (subsets, orders, max_nesting); non-trivial = contains a markdown-significant character; distinct by hash of (cfg, source)",
              ["whole-pipeline totality theorem is _partial: mechanism theorems + rule-level correspondence + oracle cover the composition",
-              "hang = wall time beyond 2 s + 1 ms/byte; stack exhaustion is covered by C02"], extra_modules=('GenC17', 'GenC02', ('Pipeline', r'parseDoc_panic|renderDoc_panic|doc_render_total|spliceNode_panic|sourceposNode_total'), ('Block', r'progress|tokenize_spec|ruleAt'), ('Inline', r'progress|fuel|contracts'),)),
+              "hang = wall time beyond 2 s + 1 ms/byte; stack exhaustion is covered by C02"], extra_modules=('BlockTotal', ('DocTotal', r'panic_inline_only|parseDoc_blocks_ok'), ('EmphDepthDoc', r'doc_full_depth_bounded'), 'GenC17', 'GenC02', ('Pipeline', r'parseDoc_panic|renderDoc_panic|doc_render_total|spliceNode_panic|sourceposNode_total'), ('Block', r'progress|tokenize_spec|ruleAt'), ('Inline', r'progress|fuel|contracts'),)),
     'C02': P('C02', [('nest', 4500, 36000), ('block', 3000, 24000), ('inline', 2500, 20000), ('pipeline', 1500, 12000)], ('C02', 3000, 20000),
              "oracle: 16 nesting families x sizes up to the budget x max_nesting in {0,1,3,10,100}; recursion gauge (hook) and tree depth compared with 4*max_nesting+16; non-trivial = size >= 150",
-             ["actual stack exhaustion is a runtime fact; the model bounds frames and depth, the oracle observes the gauge on a 3 GiB-stack thread"], extra_modules=('C02Doc', 'GenC02',)),
+             ["actual stack exhaustion is a runtime fact; the model bounds frames and depth, the oracle observes the gauge on a 3 GiB-stack thread"], extra_modules=('EmphDepth', 'EmphDepthDoc', 'C02Doc', 'GenC02',)),
     'C03': P('C03', [('render', 15000, 120000), ('noderender', 4000, 32000), ('pipeline', 1500, 12000)], ('C03', 20000, 160000),
              "render stream: escape_html inputs and random event scripts (hostile payloads, empty strings, NUL, LF-terminated texts before cr) replayed into the REAL HTMLRenderer in both modes; oracle: recogniser of the safe output language on rendered hostile/generated documents under html-free configurations; non-trivial = payload with & < or quote / script with cr and >= 3 events",
              ["attribute names pushed into node.attrs by plugins are &'static str; the theorems assume they are `data-sourcepos` (what the shipped sourcepos plugin pushes) - shown necessary by a witness"], extra_modules=(('Pipeline', r'doc_safe_output|doc_output_html_free|doc_output_renderable|final_hyps|parseDoc_final'), 'NodeRender',)),
@@ -60,7 +60,7 @@ PROPS = {
              ["marks are modelled as Nat; HashMap/HashSet as lists observed through membership only"]),
     'C10': P('C10', [('lines', 900, 7200), ('block', 6000, 48000), ('pipeline', 1500, 12000), ('inline', 2500, 20000)], ('C10', 20000, 160000),
              "oracle: LF->CRLF, LF->CR and final-newline relations on the real crate for all generators x configuration sample incl. sourcepos",
-             [], extra_modules=('C10Doc', ('Pipeline', r'doc_line_ending_reduction|render_ranges_irrelevant|erase_joinNode|spliceNode_congr'),)),
+             [], extra_modules=(('DocTotal', r'invariant_full'), ('BlockTotal', r'parseBlocks_fuel|tokenize_nf|testRules_nf'), 'C10Doc', ('Pipeline', r'doc_line_ending_reduction|render_ranges_irrelevant|erase_joinNode|spliceNode_congr'),)),
     'C11': P('C11', [('codepair', 10000, 80000), ('lines', 600, 4800), ('block', 6000, 48000), ('pipeline', 1500, 12000)], ('C11', 20000, 160000),
              "oracle: payloads (fence look-alikes, entity/escape-like text, tabs, NUL, blank lines) x fenced/indented/span x nesting depth 0-3; node content and rendered <code> compared with the payload",
              ["span payloads: continuation lines do not start a block construct (block structure wins in CommonMark)"], extra_modules=(('C14Doc', r'doc_fence|doc_indented'), ('Block', r'verbatim'),)),
